@@ -19,6 +19,7 @@ use std::sync::Arc;
 use std::sync::atomic::{AtomicU64, Ordering};
 
 pub mod bf;
+pub mod kinds;
 
 /// splitmix64; every random choice of the harness derives from one state
 #[derive(Clone)]
